@@ -100,6 +100,34 @@ pub fn judge(s: &str, cuts: bool) -> Option<String> {
             esc(&per_char_str.1)
         ));
     }
+    // looking does not touch: every read accessor called after every character (feed()) and
+    // after every one-character call (feed_str) - the end result is the same, and what
+    // dump() says at the end is what a terminal that was never looked at says
+    for per_call in [false, true] {
+        let mut vt = build_vt(cols, rows, None);
+        let mut b = [0u8; 4];
+        for ch in s.chars() {
+            if per_call {
+                let _ = vt.feed_str(ch.encode_utf8(&mut b));
+            } else {
+                vt.feed(ch);
+            }
+            let _ = (vt.dump(), vt.text(), vt.lines().len(), vt.view().len(), vt.cursor(), vt.size(), vt.cursor_key_app_mode());
+        }
+        let looked = snapshot(&vt);
+        if looked != whole {
+            return Some(format!(
+                "one feed_str call: cursor {:?} rows {:?} dump {} / {} with every accessor read after every character: cursor {:?} rows {:?} dump {}",
+                whole.0.cursor,
+                whole.0.rows,
+                esc(&whole.1),
+                if per_call { "one call per character" } else { "feed() per character" },
+                looked.0.cursor,
+                looked.0.rows,
+                esc(&looked.1)
+            ));
+        }
+    }
     if cuts {
         let idx: Vec<usize> = s.char_indices().map(|(i, _)| i).skip(1).collect();
         for i in idx {
@@ -136,7 +164,7 @@ pub fn run(ctx: &Ctx, rep: &mut Report, property: &str, part: &str, oracle: &str
             Err(p) => Some((s.clone(), format!("panic: {}", p))),
         })
         .collect();
-    let runs = all.len() as u64 * if cuts { 3 + k as u64 } else { 3 };
+    let runs = all.len() as u64 * if cuts { 5 + k as u64 } else { 5 };
     rep.evaluations += runs;
     rep.transitions += runs;
     rep.traces_validated += all.len() as u64;
